@@ -178,7 +178,9 @@ def check_state(label, node_ids, edges, expanded, S, san=lambda s: s, hidden_ids
         if not any(s in reps(p) and t in reps(c) and s != t for s, t in flat):
             # known finding F8: a value entering an expanded container reaches only the first of several inner consumers,
             # or a producer hidden inside a collapsed inner container loses its edge
-            sibs = [c2 for p2, c2, k2, v2 in deps if p2 == p and v2 == v and c2 != c and any(s in reps(p) and t in reps(c2) for s, t in flat)]
+            # (the consumer that IS drawn must sit in the same container as the one that is not: a value that reaches a
+            # root-level sibling instead of the container's inner consumer is a different defect and is reported)
+            sibs = [c2 for p2, c2, k2, v2 in deps if p2 == p and v2 == v and c2 != c and parent.get(c2) == parent.get(c) and any(s in reps(p) and t in reps(c2) for s, t in flat)]
             sig = "F8" if (kind == "data" and (sibs or not visible(p) or not visible(c)) and (c in parent or p in parent)) else None
             problems.append(("faithful", f"{label}: {kind} dependency {p} --{v}--> {c} is not drawn between visible representatives", sig))
     for s, t in sorted(flat):
@@ -276,13 +278,18 @@ def check_spec(spec, res):
 
 def run(tier, seed, functions):
     n = 60 if tier == "quick" else 1000
-    res = Result("C20", "random nested graphs (depth 0..2; shared inputs, gates to siblings / END, ordering edges, values entering a container) x every expansion state x both output modes "
+    res = Result("C20", "random nested graphs (depth 0..2, plus a few of depth 3; shared inputs, gates to siblings / END, ordering edges, values entering a container) x every expansion state x both output modes "
                  "(interactive view) x every Mermaid depth x both output modes; oracle = structure computed from the spec alone: endpoints declared, each dependency drawn between visible "
                  "representatives, no edge without a dependency, flattened graph lists each nested node once under its parent", {"programs": n, "depth": "0..2"})
     res.failures = _Unlimited()
     rng = random.Random(seed * 2953 + 20)
     for _ in range(n):
         check_spec(gen_spec(rng), res)
+    # systematic part (own dice): three levels of nesting - the innermost graph's edges are added by the second recursive
+    # step of the flattening, which depth 0..2 never reaches
+    rng3 = random.Random(seed * 7919 + 3)
+    for _ in range(max(6, n // 10)):
+        check_spec(gen_spec(rng3, depth=3), res)
     return res
 
 
